@@ -189,40 +189,49 @@
           [(r "start") (r "stop")])
       [(r "start") (r "stop") (r "step")]))))))
 
-(hy-repr-register
-  hy.models.FComponent
-  (fn [x] (+
+(defn _fstring-text [s raw]
+  ; Spell a literal part of an f-string or of a format spec: escaped as in
+  ; a plain string literal unless the f-string is a (raw) bracket string,
+  ; with braces doubled.
+  (.replace (.replace
+    (if raw (str s) (cut (hy-repr (hy.models.String (str s))) 1 -1))
+    "{" "{{")
+    "}" "}}"))
+
+(defn _fcomponent-repr [x raw]
+  (setv value (hy-repr (get x 0)))
+  (+
     "{"
-    (hy-repr (get x 0))
+    ; A field starting with `{{` would read as an escaped brace.
+    (if (.startswith value "{") " " "")
+    value
     (if x.conversion f" !{x.conversion}" "")
     (if (> (len x) 1)
-      (+ " :" (if (isinstance (get x 1) hy.models.String)
-        (get x 1)
-        (hy-repr (get x 1))))
+      (+ " :" #* (lfor  c (cut x 1 None)
+        (if (isinstance c hy.models.String)
+          (_fstring-text c raw)
+          (_fcomponent-repr c raw))))
       "")
-    "}")))
+    "}"))
+
+(hy-repr-register
+  hy.models.FComponent
+  (fn [x] (_fcomponent-repr x False)))
 
 (hy-repr-register
   hy.models.FString
   (fn [fstring]
-    (if (is-not None fstring.brackets)
+    (setv raw (is-not None fstring.brackets))
+    (setv body (.join "" (gfor  component fstring
+      (if (isinstance component hy.models.String)
+        (_fstring-text component raw)
+        (_fcomponent-repr component raw)))))
+    (if raw
       (+ "#[" fstring.brackets "["
-         #* (lfor component fstring
-                  (if (isinstance component hy.models.String)
-                      (.replace (.replace (str component)
-                        "{" "{{")
-                        "}" "}}")
-                      (hy-repr component)))
-         "]" fstring.brackets "]")
-      (+ (if fstring.is-tstring "t" "f") "\""
-         #* (lfor component fstring
-                  :setv s (hy-repr component)
-                  (if (isinstance component hy.models.String)
-                      (.replace (.replace (cut s 1 -1)
-                        "{" "{{")
-                        "}" "}}")
-                      s))
-         "\""))))
+         ; The reader drops one newline after the opening delimiter.
+         (if (.startswith body "\n") "\n" "")
+         body "]" fstring.brackets "]")
+      (+ (if fstring.is-tstring "t" "f") "\"" body "\""))))
 
 (when hy.compat.PY3_14
   ; These look pretty different from the Python `repr`s, since the
